@@ -60,27 +60,28 @@ def post(lines, verdicts):
             print("WARNING: C09 case `%s` was SKIPPED (not enough free memory): the real 4 GiB body is not tied in "
                   "this run; the 2^32 boundary is still tied by the M cases" % _case(ln).strip())
     # per-kind floors: what the evidence claims must really have been exercised
-    # G / M cases the runner did not run (accepted 2 GiB sizes with little free memory; vm.overcommit_memory = 2):
-    # surfaced, counted, and the floors that need them are dropped -- floors never depend on the host's memory
-    skipped_kinds = set()
+    # G / M cases the runner did not run (the host refused the multi-GiB mapping, or too little free memory for an
+    # accepted 2 GiB size): surfaced, counted; a floor gives way by exactly the number of skipped lines of its kind,
+    # a wanted observation only when EVERY case that could produce it was skipped -- never to zero while others ran
+    skipped = {"G": [], "M": []}
     for k in ("G", "M"):
         for ln in _kind(lines, k):
             if "| skipped" in ln:
-                skipped_kinds.add(k)
+                skipped[k].append(_case(ln).strip())
                 print("WARNING: C09 case `%s` was SKIPPED by the runner (host memory configuration)" % _case(ln).strip())
-    # driver lines that overflowed a hard stack limit: not-run, surfaced, capped
+    # driver lines that overflowed a hard stack limit were NOT judged.  They are the 65 534..65 537 boundary cases
+    # (count truncation would show exactly there), so this floor does not give way: the check fails, with the reason.
     stack = [ln for ln, v in zip(lines, verdicts) if v and v.startswith("ok not-run-stack-limit")]
     if stack:
         print("WARNING: C09: %d boundary cases were NOT judged: the host's hard stack limit is too small for the driver "
               "(e.g. `%s`)" % (len(stack), _case(stack[0])[:80].strip()))
-        if len(stack) > max(80, len(lines) // 300):
-            out.append(("diff", "stack", "diff tie not exercised: %d cases not judged because of the stack limit" % len(stack)))
+        out.append(("diff", "stack", "diff boundary cases not judged (stack limit): %d cases, e.g. `%s` -- raise the hard "
+                    "RLIMIT_STACK (the driver needs `ulimit -s unlimited` or >= 4 GB)" % (len(stack), _case(stack[0])[:60].strip())))
     floors = {"Q": 7000, "E": 6000, "B": 6000, "P": 900, "S": 900, "R": 900, "A": 700, "O": 100, "M": 18, "N": 30,
               "V": 4000, "G": 25, "C": 1}
     for k, fl in floors.items():
-        if k in skipped_kinds:
-            continue
-        have = [ln for ln in _kind(lines, k) if "| skip-env" not in ln]
+        fl -= len(skipped.get(k, []))
+        have = [ln for ln in _kind(lines, k) if "| skip-env" not in ln and "| skipped" not in ln]
         if len(have) < fl:
             out.append(("diff", k, "diff tie not exercised: %d cases of kind %s, floor %d" % (len(have), k, fl)))
     b = _kind(lines, "B")
@@ -98,8 +99,14 @@ def post(lines, verdicts):
     if len(surplus) < 20 or len(adapter_mism) - len(surplus) < 20:
         out.append(("diff", "B", "diff tie not exercised: adapter-mode batches refused for surplus/missing value lists: %d/%d, floor 20 each"
                     % (len(surplus), len(adapter_mism) - len(surplus))))
-    for want in (("err body-too-long", "len ffffffff ffffffff", "err snap") if "M" not in skipped_kinds else ()):
-        if not [ln for ln in _kind(lines, "M") if "| " + want in ln]:
+    # wanted M observations, each with the cases that can produce it
+    m_ran = [_case(ln).split() for ln in _kind(lines, "M") if "| skipped" not in ln]
+    big = lambda f: int(f[3], 16) >= 1 << 32
+    wants = (("err body-too-long", lambda f: f[1] in ("n", "l") and big(f)),
+             ("len ffffffff ffffffff", lambda f: f[1] == "n" and f[3] == "ffffffff"),
+             ("err snap", lambda f: f[1] == "s" and big(f)))
+    for want, can in wants:
+        if any(can(f) for f in m_ran) and not [ln for ln in _kind(lines, "M") if "| " + want in ln]:
             out.append(("diff", "M", "diff tie not exercised: no M case observed `%s`" % want))
     # typed rows: every row kind, and every refusal class, must have been exercised
     v = _kind(lines, "V")
@@ -112,8 +119,9 @@ def post(lines, verdicts):
     if sum(1 for ln in v if "| ok " in ln) < 1500:
         out.append(("diff", "V", "diff tie not exercised: fewer than 1500 typed rows bound and framed"))
     g = _kind(lines, "G")
-    for w in (("p", "q", "a", "c", "b") if "G" not in skipped_kinds else ()):
-        if sum(1 for ln in g if ln.startswith("G %s 8000000" % w) and "| err " in ln) < 2:
+    for w in ("p", "q", "a", "c", "b"):
+        need = 2 - sum(1 for c in skipped["G"] if c.startswith("G %s 8000000" % w))
+        if sum(1 for ln in g if ln.startswith("G %s 8000000" % w) and "| err " in ln) < need:
             out.append(("diff", "G", "diff tie not exercised: 2^31 refusals of component kind " + w))
     comp = {"n": 0, "l": 0, "s": 0}
     for ln in lines:
